@@ -174,6 +174,7 @@ class Explorer:
         seed: int = 0,
         eager_budget_s: float = 6.0,
         eager_max_paths: int = 6,
+        eager_max_depth: int = 40,
         ctor: str = "",
         time_budget_s: float = 1e9,
     ):
@@ -202,6 +203,7 @@ class Explorer:
         self.seed = seed
         self.eager_budget_s = eager_budget_s
         self.eager_max_paths = eager_max_paths
+        self.eager_max_depth = eager_max_depth
         self.ctor = ctor
         self.time_budget_s = time_budget_s
         self._injected = roots
@@ -457,8 +459,8 @@ class Explorer:
     def _consider_keep(self, nid: int, key: bytes, flat_s: Any, ts2: Any, r: int, i: int, a: int) -> None:
         pr = hashlib.sha1(self.seed.to_bytes(8, "little", signed=True) + key).digest()[:8]
         cap = 4 * self.eager_max_paths
-        if cap <= 0:
-            return
+        if cap <= 0 or self.depth[nid] > self.eager_max_depth:
+            return  # long paths are not replayed eagerly (un-jitted steps re-compile closures at every call)
         if len(self._kept) >= cap:
             worst = max(self._kept.items(), key=lambda kv: kv[1][0])
             if pr >= worst[1][0]:
